@@ -116,7 +116,12 @@ def check_case(p, ctx):
     if p["method"] == "lsq":
         tol = max(tol, 1e-3)      # lmfit least squares: measured <= 1.5e-4
     if p["method"] == "lsq_linear":
-        tol = max(tol, 3e-4)      # scipy.lsq_linear (trf) on the normal equations: measured <= 3e-5
+        # scipy.lsq_linear (trf, tol 1e-10) on the bordered normal equations: its error grows with the squared
+        # condition number (measured 3e-5 at cond 0.02, 7e-4 at cond 0.003)
+        tol = max(tol, 3e-4, 2e-8 / max(cond, 1e-6) ** 2)
+        if tol > 0.02:
+            ctx.skip("conditioning: lsq_linear tolerance > 0.02")
+            return
     kw = {"allow_negatives": p["allow_negatives"]}
     if p["method"]:
         kw["method"] = p["method"]
